@@ -21,6 +21,9 @@ func validateRequests(messages []Message) error {
 			return fmt.Errorf("message at index %d: %w", i, err)
 		}
 	}
+	if messagesWideSize(messages) > uint64(RSCP_FRAME_MAX_DATA_SIZE) {
+		return ErrRscpDataLimitExceeded
+	}
 	return nil
 }
 
